@@ -24,6 +24,7 @@ POOL_QUICK = [
     A("use", "os", "linux"), A("use", "os", "win"), A("not", "os", "linux"), A("not", "os", "mac"),
     A("active", "os", "linux"), A("not_active", "os", "win"), A("only", "os", "mac"),
     A("use", "n", "3"), A("use", "n", "5"), A("not", "n", "3"), A("use", "n", "x"), A("not", "n", "x"),
+    A("use", "n", "-5"), A("not", "n", "+7"),         # signed integer literals are integers, not malformed values
     A("use", "flag", "yes"), A("not", "flag", "off"), A("use", "flag", "maybe"),
     A("use", "zz", "1"), A("not", "zz", "1"),
     A("use", "a.b", "v"), A("not", "a.b", "w"),
